@@ -131,6 +131,7 @@ func runC06(r *Run) {
 		c06CancelDuringSend(r)
 	}
 	c06CancelInsideCloseSend(r)
+	c06ConcurrentHeaderAndSend(r)
 	if r.Want("resetrace") {
 		c06ResetVersusTrailer(r)
 	}
